@@ -482,6 +482,39 @@ func init() {
 			if len(v2) == 0 {
 				return
 			}
+			if sc.v1ok() {
+				// a v1 transaction whose signature names what it covers, with index
+				// lists of different lengths for the siafund inputs and outputs
+				for _, id := range sc.store.sortedSF() {
+					e := sc.store.SF[id]
+					wl, ai := w.ownerOf(e.SiafundOutput.Address)
+					taken := false
+					for _, t := range v1 {
+						for _, in := range t.SiafundInputs {
+							taken = taken || in.ParentID == id
+						}
+					}
+					for _, t := range v2 {
+						for _, in := range t.SiafundInputs {
+							taken = taken || in.Parent.ID == id
+						}
+					}
+					if wl == nil || ai.uc == nil || !ai.canSpendV1(sc.child()) || (ai.kind != "uc-std" && ai.kind != "uc-2of3") || e.SiafundOutput.Value < 2 || taken {
+						continue
+					}
+					txn := types.Transaction{SiafundInputs: []types.SiafundInput{{ParentID: id, UnlockConditions: *ai.uc, ClaimAddress: w.advAddr()}},
+						SiafundOutputs: []types.SiafundOutput{{Value: 1, Address: e.SiafundOutput.Address}, {Value: e.SiafundOutput.Value - 1, Address: e.SiafundOutput.Address}}}
+					wl.signV1(sc.s, &txn, types.Hash256(id), *ai.uc)
+					w.makePartial(&txn)
+					wl.finishV1(sc.s, &txn, map[types.Hash256]types.UnlockConditions{types.Hash256(id): *ai.uc})
+					with := append(append([]types.Transaction(nil), v1...), txn)
+					if b := w.assemble(sc.s, sc.nextTimestamp(), w.miners[0].addr, with, v2, false); consensus.ValidateBlock(sc.s, b, sc.supplement(b)) == nil {
+						v1 = with
+						w.stats.Inc("probe.O1-partial-v1-siafund")
+					}
+					break
+				}
+			}
 			b := w.assemble(sc.s, sc.nextTimestamp(), w.miners[0].addr, v1, v2, false)
 			if err := consensus.ValidateBlock(sc.s, b, sc.supplement(b)); err != nil {
 				return
